@@ -231,6 +231,8 @@ def classify_syntax(why):
     """narrow class of a frontend rejection from the offending line"""
     m = re.search(r'>>>(.*)', why)
     line = m.group(1) if m else ''
+    if 'validation error for Associate' in why:
+        return 'empty-associate'
     if re.search(r'[-+*/]\s*-\s*[\d(a-zA-Z]', line):
         return 'sign-after-operator'
     if re.search(r'_[A-Za-z]\w*\s*\(', line) and re.search(r'\d_[A-Za-z]', line):
